@@ -201,23 +201,23 @@ Section Spec.
     match v with VImport n => Some n | VAccess _ e => Some e | VInst _ => None end.
 
   (** * reference evaluation *)
-  Definition S (A : Type) := senv -> (A * senv) + illformed.
-  Definition sret {A} (x : A) : S A := fun e => inl (x, e).
-  Definition sbind {A B} (m : S A) (f : A -> S B) : S B :=
+  Definition SM (A : Type) := senv -> (A * senv) + illformed.
+  Definition sret {A} (x : A) : SM A := fun e => inl (x, e).
+  Definition sbind {A B} (m : SM A) (f : A -> SM B) : SM B :=
     fun e => match m e with inl (x, e') => f x e' | inr i => inr i end.
-  Definition ill {A} (i : illformed) : S A := fun _ => inr i.
-  Definition env_ : S senv := fun e => inl (e, e).
+  Definition ill {A} (i : illformed) : SM A := fun _ => inr i.
+  Definition env_ : SM senv := fun e => inl (e, e).
 
   Notation "x <~ m ;; f" := (sbind m (fun x => f)) (at level 61, m at next level, right associativity).
 
-  Definition lookup (id : ident) : S sval :=
+  Definition lookup (id : ident) : SM sval :=
     e <~ env_ ;;
     match im_get (se_names e) (id_string id) with
     | Some v => sret v
     | None => ill (IUndefinedName (id_string id))
     end.
 
-  Definition bind_name (id : ident) (v : sval) : S unit :=
+  Definition bind_name (id : ident) (v : sval) : SM unit :=
     fun e => match im_get (se_names e) (id_string id) with
              | Some _ => inr (IDuplicateName (id_string id))
              | None => inl (tt, {| se_names := se_names e ++ [(id_string id, v)]; se_imports := se_imports e;
@@ -225,7 +225,7 @@ Section Spec.
              end.
 
   (** access: [exact = false] is [.id] (the path rule applies), [true] is [["name"]] *)
-  Definition access (v : sval) (nm : str) (exact : bool) : S sval :=
+  Definition access (v : sval) (nm : str) (exact : bool) : SM sval :=
     e <~ env_ ;;
     match val_exports e v with
     | None => ill INonInstanceAccess
@@ -234,7 +234,7 @@ Section Spec.
         if has_key ex n then sret (VAccess v n) else ill (IUnknownExport n)
     end.
 
-  Fixpoint access_chain (v : sval) (l : list postfix_expr) : S sval :=
+  Fixpoint access_chain (v : sval) (l : list postfix_expr) : SM sval :=
     match l with
     | [] => sret v
     | PAccess _ id :: r => w <~ access v (id_string id) false ;; access_chain w r
@@ -247,13 +247,13 @@ Section Spec.
     | ANString s => s_value s
     end.
 
-  Definition add_explicit (ex : list (str * sval)) (nm : str) (v : sval) : S (list (str * sval)) :=
+  Definition add_explicit (ex : list (str * sval)) (nm : str) (v : sval) : SM (list (str * sval)) :=
     if has_key ex nm then ill (IDuplicateArgument nm) else sret (ex ++ [(nm, v)]).
 
   (** explicit arguments, left to right; the result also says whether [...] closes the list *)
-  Definition explicit_args (evalf : expr -> S sval) (imports : list str)
-    : list inst_arg -> list (str * sval) -> S (list (str * sval) * bool) :=
-    fix go (args : list inst_arg) (ex : list (str * sval)) : S (list (str * sval) * bool) :=
+  Definition explicit_args (evalf : expr -> SM sval) (imports : list str)
+    : list inst_arg -> list (str * sval) -> SM (list (str * sval) * bool) :=
+    fix go (args : list inst_arg) (ex : list (str * sval)) : SM (list (str * sval) * bool) :=
     match args with
     | [] => sret (ex, false)
     | AInferred id :: r =>
@@ -271,7 +271,7 @@ Section Spec.
     end.
 
   Fixpoint spread_args (imports : list str) (explicit : list (str * sval)) (args : list inst_arg)
-           (acc : list (spread_src sval)) : S (list (spread_src sval)) :=
+           (acc : list (spread_src sval)) : SM (list (spread_src sval)) :=
     match args with
     | [] => sret acc
     | ASpread id :: r =>
@@ -288,7 +288,7 @@ Section Spec.
     end.
 
   (** every provided argument must name an import and conform to it *)
-  Fixpoint check_args (imports : list (str * kid)) (l : list (str * sval)) : S unit :=
+  Fixpoint check_args (imports : list (str * kid)) (l : list (str * sval)) : SM unit :=
     match l with
     | [] => sret tt
     | (nm, v) :: r =>
@@ -303,10 +303,10 @@ Section Spec.
         end
     end.
 
-  Definition find_pkg (nm : str) (v : option version) : S nat :=
+  Definition find_pkg (nm : str) (v : option version) : SM nat :=
     match ru_pkg_find u nm v with Some p => sret p | None => ill (IUnknownPackage nm) end.
 
-  Definition new_value (evalf : expr -> S sval) (pkg : package_name) (args : list inst_arg) : S sval :=
+  Definition new_value (evalf : expr -> SM sval) (pkg : package_name) (args : list inst_arg) : SM sval :=
     if str_eqb (pn_name pkg) self_name then ill (IUnknownPackage (pn_name pkg)) else
     p <~ find_pkg (pn_name pkg) (pn_version pkg) ;;
     match pkg_world p with
@@ -331,11 +331,11 @@ Section Spec.
         end
     end.
 
-  Fixpoint value_of (x : expr) : S sval :=
+  Fixpoint value_of (x : expr) : SM sval :=
     match x with
     | Expr _ p post => v <~ primary_value p ;; access_chain v post
     end
-  with primary_value (p : primary_expr) : S sval :=
+  with primary_value (p : primary_expr) : SM sval :=
     match p with
     | PNew _ pkg args => new_value (fun y => value_of y) pkg args
     | PNested _ inner => value_of inner
@@ -343,7 +343,7 @@ Section Spec.
     end.
 
   (** ** import statements *)
-  Fixpoint project_kind (k : kid) (segs : list str) : S kid :=
+  Fixpoint project_kind (k : kid) (segs : list str) : SM kid :=
     match segs with
     | [] => sret k
     | s :: r =>
@@ -353,7 +353,7 @@ Section Spec.
         end
     end.
 
-  Definition path_kind (p : package_path) : S kid :=
+  Definition path_kind (p : package_path) : SM kid :=
     match split_on c_slash (pp_segments p) with
     | [] => ill IOutOfScope
     | s :: r =>
@@ -371,7 +371,7 @@ Section Spec.
           end
     end.
 
-  Definition add_import (nm : str) (k : kid) : S sval :=
+  Definition add_import (nm : str) (k : kid) : SM sval :=
     fun e =>
       if has_key (se_imports e) nm then inr (IConflictingImport nm)
       else if negb (u_import_name_ok u (ru_intern u nm)) then inr (IInvalidName nm)
@@ -382,7 +382,7 @@ Section Spec.
       of the import will be the same as the local name"; [as] renames.  (An import whose type is a
       local name takes the package path associated with that item's type, if it has one: the
       reference is silent about this form.) *)
-  Definition import_stmt (id : ident) (nm : option extern_name) (t : import_type) : S unit :=
+  Definition import_stmt (id : ident) (nm : option extern_name) (t : import_type) : SM unit :=
     name <~ match nm with
             | Some n => sret (extern_name_str n)
             | None =>
@@ -415,7 +415,7 @@ Section Spec.
     bind_name id v.
 
   (** ** export statements *)
-  Definition add_export (nm : str) (v : sval) : S unit :=
+  Definition add_export (nm : str) (v : sval) : SM unit :=
     fun e =>
       if has_key (se_exports e) nm then inr (IConflictingExport nm)
       else if negb (u_export_name_ok u (ru_intern u nm)) then inr (IInvalidName nm)
@@ -430,7 +430,7 @@ Section Spec.
     | None => val_source v
     end.
 
-  Fixpoint spread_export (v : sval) (names : list str) (any : bool) : S bool :=
+  Fixpoint spread_export (v : sval) (names : list str) (any : bool) : SM bool :=
     match names with
     | [] => sret any
     | nm :: r =>
@@ -439,7 +439,7 @@ Section Spec.
         else _ <~ add_export nm (VAccess v nm) ;; spread_export v r true
     end.
 
-  Definition export_stmt (x : expr) (opts : export_options) : S unit :=
+  Definition export_stmt (x : expr) (opts : export_options) : SM unit :=
     v <~ value_of x ;;
     e <~ env_ ;;
     match opts with
@@ -462,10 +462,10 @@ Section Spec.
 
   (** "The let statement allows for binding a local name ... to the result of an expression": nothing
       else happens *)
-  Definition let_stmt (id : ident) (x : expr) : S unit :=
+  Definition let_stmt (id : ident) (x : expr) : SM unit :=
     v <~ value_of x ;; bind_name id v.
 
-  Definition stmt (s : statement) : S unit :=
+  Definition stmt (s : statement) : SM unit :=
     match s with
     | SImport _ id nm t => import_stmt id nm t
     | SType _ => ill IOutOfScope
@@ -473,7 +473,7 @@ Section Spec.
     | SExport _ x opts => export_stmt x opts
     end.
 
-  Fixpoint stmts (l : list statement) : S unit :=
+  Fixpoint stmts (l : list statement) : SM unit :=
     match l with
     | [] => sret tt
     | s :: r => _ <~ stmt s ;; stmts r
